@@ -239,7 +239,10 @@ def spec_iter(reverse):
 
 
 def specs(tier='quick'):
-    return [spec_next(), spec_iter(False), spec_iter(True)]
+    # Transformation.apply_file (plan mode mirrors transform mode; every procedure item of a file is handed its own
+    # role and targets): the relational contract lives in contracts/C24.py and is an obligation of both properties
+    from contracts import C24
+    return [spec_next(), spec_iter(False), spec_iter(True)] + C24.apply_file_specs(PROP)
 
 
 def lemma_proofs():
